@@ -63,8 +63,10 @@ def create_single_letter_matches(plain, cmdline):
             if beg <= m.start(0) < end:
                 return True
         return False
+    # NB: [^\W0-9_] also matches characters like '\u00bd' or non-ASCII digits
     single = r'\b[^\W0-9_]\b'
-    return list(msg(m) for m in re.finditer(single, plain) if not f(m))
+    return list(msg(m) for m in re.finditer(single, plain)
+                        if m.group(0).isalpha() and not f(m))
 
 #   create error messages for problem with equation punctuation
 #
